@@ -9,6 +9,7 @@
   (`swap_remove`) — the witness X1 of DESIGN §8, replayed on `/repo` by `corpus/f1_sysevents_1432.scn`.
 -/
 import Cobweb.Proofs.Trackers
+import Cobweb.Proofs.PendingD
 
 namespace Cobweb.C03
 
@@ -136,5 +137,51 @@ theorem C03_false : claimOrder 4 { prepared := [(7, 1), (7, 2), (7, 3), (7, 4)] 
 example : claimedOwn ({ trkEvt := { reacting := true, cur := 5, prepared := [] } } : St) (.bcEv 5) = true ∧
     FlagsFor ({ trkEvt := { reacting := true, cur := 5, prepared := [] } } : St) (.bcEv 5) := by
   simp [claimedOwn, FlagsFor]
+
+/-- **C03 for every execution without ambiguity (whole executions).** Take any program and any history such that, along
+    the execution, no two commands that wait for the same access tracker target the same system (`Unamb`; the pinned
+    code violates C03 exactly when this fails — finding F1). Then whenever the runner is about to run the target of a
+    command — at any depth of any reaction tree, first run or replay of a postponed command — the trackers after the
+    command's `setup` hold exactly the metadata this command prepared (`claimedOwn`) and exactly the trackers of the
+    command's kind are flagged (`FlagsFor`): by the partial theorems above every reader of the run returns the causing
+    event's own data and every other reader returns nothing. -/
+theorem C03_unambiguous (p : Prog) (h : Hist) {s : St} (hU : ∀ s', Reach p h ({} : St) s' → Unamb s')
+    (hr : Reach p h ({} : St) s) {sys idx : Nat} {k : Kind} {rest : List Frame}
+    (hst : s.stack = Frame.runnerLookup sys k idx :: rest) :
+    claimedOwn (setupK { s with stack := rest, storage := upd s.storage sys (some false), counter := s.counter + 1 } k sys) k = true ∧
+    FlagsFor (setupK { s with stack := rest, storage := upd s.storage sys (some false), counter := s.counter + 1 } k sys) k := by
+  have hD := pendD_reach p h pendD_default hU hr
+  have hu := hU s hr
+  refine ⟨claim_exact hD hu hst _ rfl rfl rfl rfl, ?_⟩
+  -- the flags
+  obtain ⟨_, _, f⟩ := all_reach p h ctl_default once_default flag_default hr
+  have htop := f.top; rw [hst] at htop
+  have hi : Fl s = (false, false, false, false) := htop.1
+  simp only [Fl, Prod.mk.injEq] at hi
+  generalize hs1 : ({ s with stack := rest, storage := upd s.storage sys (some false), counter := s.counter + 1 } : St) = s1
+  have e1 : s1.trkSys = s.trkSys := by subst hs1; rfl
+  have e2 : s1.trkEvt = s.trkEvt := by subst hs1; rfl
+  have e3 : s1.trkEnt = s.trkEnt := by subst hs1; rfl
+  have e4 : s1.trkDsp = s.trkDsp := by subst hs1; rfl
+  have hflag : ∀ T, reactingOf T (setupK s1 k sys) = (keyOf T k).isSome := by
+    intro T
+    cases hk : keyOf T k with
+    | none =>
+      rw [reacting_setupK_unused T s1 k sys hk]
+      cases T <;> simp [reactingOf, e1, e2, e3, e4, hi]
+    | some key =>
+      have h0 : (prepD T s1).Perm (pendD T (s.buffered ++ (sys, k) :: stackPending rest)) := by
+        rw [prepD_of_trk e1 e2 e3 e4]
+        have := hD T
+        simpa [allPending, hst, stackPending_cons, framePending] using this
+      have hn : (pend (uses T) (s.buffered ++ (sys, k) :: stackPending rest)).Nodup := by
+        have := hu T
+        simpa [allPending, hst, stackPending_cons, framePending] using this
+      simpa using ((pendD_setup T h0 hn).2 key hk).2
+  have a := hflag .sys; have b := hflag .evt; have c := hflag .ent; have d := hflag .dsp
+  cases k <;> simp [reactingOf, keyOf] at a b c d <;> exact ⟨a, b, c, d⟩
+
+/-- Non-vacuity: the empty world satisfies the invariant and is unambiguous. -/
+example : PendD ({} : St) ∧ Unamb ({} : St) := ⟨pendD_default, unamb_default⟩
 
 end Cobweb.C03
